@@ -1856,35 +1856,42 @@ verify_changed(VB* self, PyObject* ignored)
 {
     PyObject *t, *ro, *generations;
 
-    VB_clear(self);
-
+    /* Note the generations *before* dropping the caches, like the Python
+       implementation: reading ``ro`` and ``_generation`` can run Python
+       code (persistent registries), and whatever that code looks up and
+       caches, or changes in a base, must not be recorded as valid for the
+       generations we end up with.  When reading fails we cannot tell what
+       the caches are good for: drop them and remember nothing, so that
+       the next lookup verifies anew. */
+    generations = ro = NULL;
     t = PyObject_GetAttr(OBJECT(self), str_registry);
     if (t == NULL)
-        return NULL;
+        goto fail;
 
     ro = PyObject_GetAttr(t, strro);
     Py_DECREF(t);
     if (ro == NULL)
-        return NULL;
+        goto fail;
 
     t = PyObject_CallFunctionObjArgs(OBJECT(&PyTuple_Type), ro, NULL);
     Py_DECREF(ro);
+    ro = NULL;
     if (t == NULL)
-        return NULL;
+        goto fail;
 
     ro = PyTuple_GetSlice(t, 1, PyTuple_GET_SIZE(t));
     Py_DECREF(t);
     if (ro == NULL)
-        return NULL;
+        goto fail;
 
     generations = _generations_tuple(ro);
-    if (generations == NULL) {
-        Py_DECREF(ro);
-        return NULL;
-    }
+    if (generations == NULL)
+        goto fail;
 
-    /* Reading ``ro`` and ``_generation`` can run Python code that calls
-       ``changed()`` again: release what that call stored. */
+    LB_clear((LB*)self);
+
+    /* Dropping cached values can run Python code as well (``__del__``),
+       which may have called ``changed()`` again: release what it stored. */
     t = self->_verify_generations;
     self->_verify_generations = generations;
     Py_XDECREF(t);
@@ -1894,6 +1901,16 @@ verify_changed(VB* self, PyObject* ignored)
 
     Py_INCREF(Py_None);
     return Py_None;
+
+fail:
+    Py_XDECREF(ro);
+    {
+        PyObject *et, *ev, *tb;
+        PyErr_Fetch(&et, &ev, &tb);
+        VB_clear(self);
+        PyErr_Restore(et, ev, tb);
+    }
+    return NULL;
 }
 
 /*
